@@ -440,7 +440,15 @@ def check_bingham(ck):
         stores = [e for e in g.events if e.kind == 'store']
         recip = [t for e in g.events if e.term is not None for t in walk_terms(e.term) if t.op == 'binop' and t.args[0] == 'Div' and const_val(t.args[1]) == 1
                  and is_call_to(t.args[2], 'numpy.prod')]
-        okp = bool(stores) and bool(recip) and const_val(call_arg(recip[0].args[2], 1, 'axis')) == -1
+        diag = bool(stores)
+        if not diag and recip:
+            # out-of-place form: np.where(np.eye(D, dtype=bool), 1, differences)
+            ctx_ = A.ev.entry(fn)
+            for x in walk_terms(recip[0].args[2], into_mu=False):
+                if is_call_to(x, 'numpy.where') and any(is_call_to(y, 'numpy.eye', 'numpy.identity') for y in walk_terms(call_arg(x, 0), into_mu=False)):
+                    v = A.ev.eval(call_arg(x, 1), ctx_)
+                    diag = diag or (v.is_const and v.cval == 1)
+        okp = diag and bool(recip) and const_val(call_arg(recip[0].args[2], 1, 'axis')) == -1
         run.check(okp, 'R-LIN', 'ComplexBingham.norm: a_j = 1 / prod of eigenvalue differences with unit diagonal', fn.loc(), '',
                   'partial-fraction coefficients are not 1/prod(deltas, axis=-1) with the diagonal set to one', construct=f'R-LIN::{q}::partial-fractions')
     else:
